@@ -78,7 +78,7 @@ def correspondence(rep, rng, tier):
   healthy = []
   for bits in sizes:
     p, q = gen_rsa.semiprime(rng, bits)
-    if (p * q).bit_length() != bits:
+    while (p * q).bit_length() != bits:      # the property is about keys of AT LEAST 2048 bits
       p, q = gen_rsa.semiprime(rng, bits)
     healthy.append(p * q)
   weakp = gen_rsa.rprime(rng, 1024)
